@@ -65,8 +65,12 @@ def _flavor_case(i, rng):
                 r_in = _rand_invertible(rng)
             if sides in ("out", "both"):
                 r_out = _rand_invertible(rng)
-            r_in_arg = None if r_in is None else r_in.copy()
-            r_out_arg = None if r_out is None else r_out.copy()
+            # a caller that always passes both matrices hands over an explicit identity for the untouched side
+            explicit_id = bool(rng.random() < 0.5)
+            r_in_arg = (np.eye(14) if explicit_id else None) if r_in is None else r_in.copy()
+            r_out_arg = (np.eye(14) if explicit_id else None) if r_out is None else r_out.copy()
+            if explicit_id and sides != "both":
+                out["hits"]["explicit_identity_side"] = 1
             res = manipulate.flavor_reshape(elem, targetpids=r_out_arg, inputpids=r_in_arg)
         else:
             mat = flavor_f.evol_matrix() if mode == "to_evol" else flavor_f.uni_matrix()
